@@ -62,6 +62,11 @@ def canonical_vector(blocks):
     return np.concatenate(parts) if parts else np.zeros((0,), dtype=object)
 
 
+def _meta_name(name, D, is_torus):
+    it = tuple(bool(v) for v in is_torus) if isinstance(is_torus, (tuple, list)) else (bool(is_torus),) * D
+    return f"{name}_D{D}_{''.join('T' if v else 'F' for v in it)}"
+
+
 def make_uf_model(name, out_sig, out_spatial=None, out_D=None, out_is_torus=None):
     """A MultiImageModule whose output is an uninterpreted function of its whole input (sorted-key order).
     out_sig: ((k,p), channels) list; spatial dims are taken from the input unless given."""
@@ -80,7 +85,8 @@ def make_uf_model(name, out_sig, out_spatial=None, out_D=None, out_is_torus=None
             sd = tuple(x.get_spatial_dims()) if out_spatial is None else tuple(out_spatial)
             vec = jnp.concatenate([x[k].reshape(-1) for k in sorted(x.keys())])
             sizes = [c * int(np.prod(sd)) * D ** kp[0] for kp, c in out_sig]
-            y = uf_p.bind(vec, name=self.uname, out_size=int(sum(sizes)))
+            # "every model" includes models that look at the image's metadata: the function symbol depends on (D, is_torus)
+            y = uf_p.bind(vec, name=_meta_name(self.uname, x.D, x.is_torus), out_size=int(sum(sizes)))
             out = geom.MultiImage({}, D, x.is_torus if out_is_torus is None else out_is_torus)
             i = 0
             for (kp, c), sz in zip(out_sig, sizes):
@@ -91,8 +97,9 @@ def make_uf_model(name, out_sig, out_spatial=None, out_D=None, out_is_torus=None
     return UFModel(name)
 
 
-def uf_model_apply(name, blocks, out_sig, spatial, D):
-    """Harness-side evaluation of make_uf_model(name, out_sig) on a dict of object arrays."""
+def uf_model_apply(name, blocks, out_sig, spatial, D, is_torus=True):
+    """Harness-side evaluation of make_uf_model(name, out_sig) on a dict of object arrays (of an image with flags is_torus)."""
+    name = _meta_name(name, D, is_torus)
     out_sig = [(tuple(kp), int(c)) for kp, c in out_sig]
     sizes = [c * int(np.prod(spatial)) * D ** kp[0] for kp, c in out_sig]
     y = uf_apply(name, canonical_vector(blocks), int(sum(sizes)))
